@@ -207,7 +207,9 @@ def data_and_procnames():
     def run():
         res = []
         progs = {"hex-DATA-with-empty": "10 DATA &HFF,\n20 READ A,B\n", "num-DATA-with-empty": "10 DATA 1,,3\n20 READ A,B,C\n", "str-DATA-with-empty": '10 DATA "x",,Y\n20 READ A$,B$,C$\n',
-                 "huge-literal": "10 A=1E999\n", "deep-parens": "10 A=" + "(" * 30 + "1" + ")" * 30 + "\n", "long-line": "10 A=1" + "+1" * 200 + "\n"}
+                 "huge-literal": "10 A=1E999\n", "deep-parens": "10 A=" + "(" * 30 + "1" + ")" * 30 + "\n", "long-line": "10 A=1" + "+1" * 200 + "\n",
+                 "open literal to a string variable": '10 A$="HELLO\n', "open literal to an array element": '10 A$(1)="HELLO\n', "open literal, LET, two subscripts": '10 LET B$(1,2)="X Y\n',
+                 "open literal after another statement": '10 PRINT "A":Q$(2)="TAIL\n', "open literal in an IF arm": '10 IF A=1 THEN N$(K)="YES\n', "open DATA literal": '10 DATA "HELLO\n'}
         for name, src in progs.items():
             for deps in (False, True):
                 try:
@@ -299,5 +301,48 @@ def no_hang():
     return guarded("no-hang", run)
 
 
+def config_files():
+    """the configuration file is input too: whatever it contains, loading it (directly and through convert_file / the command
+    line) gives a configuration or the documented validation error - never an internal exception"""
+    def run():
+        import tempfile
+        from coco.b09.configs import CompilerConfigs
+        from coco import decb_to_b09
+        res = []
+        docs = {"empty": "", "comment only": "# nothing\n", "null": "~\n", "a list": "- 1\n- 2\n", "a scalar": "hello\n", "non-string key": "1: 2\n",
+                "valid": "string_configs:\n  strname_to_size:\n    A$: 40\n", "bad name": "string_configs:\n  strname_to_size:\n    AAA$: 40\n",
+                "bad size": "string_configs:\n  strname_to_size:\n    A$: 0\n", "wrong type": "string_configs: 7\n", "unknown key": "other: 1\n",
+                "not yaml": "{[\n", "nested list": "string_configs:\n  strname_to_size: [1, 2]\n"}
+        d = tempfile.mkdtemp(dir=os.environ.get("XDG_RUNTIME_DIR") or "/dev/shm")
+        try:
+            src = os.path.join(d, "p.bas")
+            open(src, "w").write('10 DIM A$\n20 A$="x"\n')
+            for name, text in docs.items():
+                cfg = os.path.join(d, "cfg.yaml")
+                open(cfg, "w").write(text)
+                for how in ("load", "cli"):
+                    try:
+                        if how == "load":
+                            CompilerConfigs.load(cfg)
+                        else:
+                            decb_to_b09.start(["-c", cfg, src, os.path.join(d, "out.b09")])
+                        got = "loaded"
+                    except SystemExit as e:
+                        got = "exit %s" % e.code
+                    except Exception as e:  # noqa
+                        kind, what = classify(e)
+                        if type(e).__module__.split(".")[0] in ("ruamel", "yaml"):
+                            kind = "documented"      # the YAML reader's own syntax error for a file that is not YAML: a refusal of the file
+                        got = "documented refusal" if kind == "documented" else (what or kind)
+                    ok = got in ("loaded", "documented refusal") or got.startswith("exit")
+                    res.append(ob("config/%s,%s" % (name, how), ok, "a configuration or the documented validation error", got))
+        finally:
+            for f in os.listdir(d):
+                os.unlink(os.path.join(d, f))
+            os.rmdir(d)
+        return res
+    return guarded("config", run)
+
+
 def obligations():
-    return arity() + tables() + operators() + literals() + data_and_procnames() + loop_balance() + no_hang() + mutations()
+    return arity() + tables() + operators() + literals() + data_and_procnames() + loop_balance() + no_hang() + config_files() + mutations()
